@@ -167,3 +167,25 @@ Example C02_derivation_oracle_example :
    r_match D (Greedy true) 1 ast line (Some [(KO 0, [lit "a"]); (KA 0, [lit "x"]); (KA 1, [lit "y"])]))
   = (Yes, No, No, No).
 Proof. vm_compute. reflexivity. Qed.
+
+(** Nothing is bound to a variable that does not exist — for every declaration list, spec (with or without "--"),
+    environment and accepted command line: the option of every binding [(KO k, v)] of the accepting run is the k-th
+    option container the parse returns, the argument of every binding [(KA k, v)] the k-th argument container
+    ([ArgRangeProofs]: the parser builds an argument leaf only from a declared name, the construction of the
+    automaton keeps labels, a transition [LArg k] binds to [KA k] only; [NamedProofs] for the options). So the values
+    C02 speaks of always have a place: [fill] drops none of them for want of a container. *)
+From MowCli Require Import ArgRangeProofs.
+Theorem C02_every_binding_has_a_container :
+  forall (parse_float : str -> option str) (getenv : str -> str)
+         (ds : list decl) (spec : str) (i : inited) (argv : list str) (opts' args' : list container)
+         (bs : list binding) (key : key) (v : str),
+    do_init parse_float getenv ds spec = IOk i ->
+    fsm_parse parse_float i argv = PAccept opts' args' ->
+    fsm_apply (optinfo_of (i_opts i)) (i_graph i) (i_start i) argv = AOk bs ->
+    In (key, v) bs ->
+    match key with
+    | KO k => exists c, nth_error opts' k = Some c
+    | KA k => exists c, nth_error args' k = Some c
+    end.
+Proof. exact every_binding_has_a_container. Qed.
+Print Assumptions C02_every_binding_has_a_container.
